@@ -113,7 +113,7 @@ def _judge_dag(U, out, A, Imask, family, case, rec, key, chain_variants=(True,))
     if len(want) < len(mec):
         rec.count("imec:proper-subclass")
     ctx = {"dag": _gc.rows(out), "targets": sorted(I)}
-    Iarg = set(I)
+    Iarg = set(I) if (Imask + p) % 5 else frozenset(I)
     for cc in chain_variants:
         try:
             res = U.imec(A, Iarg) if cc is True else U.imec(A, Iarg, check_chain=False)
